@@ -232,7 +232,7 @@ func parseContractFile(path, pkgPath string) (*ContractFile, error) {
 				lastSp = sp
 				curLem = nil
 			}
-		case "guarded", "held", "goroutines", "public", "nostore":
+		case "guarded", "held", "goroutines", "public", "nostore", "before", "detached":
 			if err := flush(); err != nil {
 				return nil, err
 			}
@@ -255,8 +255,11 @@ func parseContractFile(path, pkgPath string) (*ContractFile, error) {
 				g.Type, g.Fields, g.Lock = fs[0][:i], strings.Split(fs[0][i+1:], ","), fs[2]
 			case word == "held" && len(fs) == 2:
 				g.Func, g.Param = fs[0], fs[1]
-			case (word == "goroutines" || word == "nostore") && len(fs) == 1:
+			case (word == "goroutines" || word == "nostore" || word == "detached") && len(fs) == 1:
 				g.Func = fs[0]
+			case word == "before" && len(fs) == 3:
+				// before <func> <calleeA> <calleeB>: every call of B is dominated by a call of A
+				g.Func, g.Fields = fs[0], fs[1:]
 			case word == "public" && len(fs) == 2:
 				// public <Type> m1,m2: handler methods that may be registered without the authentication wrapper
 				g.Type, g.Fields = fs[0], strings.Split(fs[1], ",")
